@@ -50,7 +50,7 @@ BUDGET_S = {'quick': 240, 'thorough': 900}
 def bounds(tier):
     return {'top_level_lines': [3, 6], 'nested_block_lines': [2, 4], 'citations_per_line': '1 (2 for the goal line), values symbolic', 'insert_count': [1, 3],
             'operations': ['add_line_before', 'remove_line', 'replace_id', 'set_line', 'same on a copy'],
-            'method_sequences': {'goals': len(GOALS), 'max_steps': 3, 'length_3': '160 seeded sequences per goal' if tier == 'quick' else 'all'}}
+            'method_sequences': {'goals': len(GOALS), 'max_steps': 3, 'length_3': '160 seeded sequences per goal + all (block-building, block-building, out-of-scope fact) sequences' if tier == 'quick' else 'all', 'goal_oracle': 'the last line is compared with the goal as stated (parsed independently), not with the initial state'}}
 
 
 def setup(tier, seed):
@@ -359,7 +359,9 @@ def run_edit_case_with_values(N, b, M, op, on_copy, out, vals):
 # ------------------------------------------------------------------ part B: method sequences
 
 GOALS = ['A & B --> B & A', 'A | B --> B | A', 'A --> B --> A', '(A --> B) --> (B --> C) --> A --> C', 'A & (B & C) --> (A & B) & C',
-         '~~A --> A', 'A --> A | B', '(A --> B --> C) --> (A & B --> C)', 'A & B --> (A --> C) --> C', '(A --> B) --> A --> B']
+         '~~A --> A', 'A --> A | B', '(A --> B --> C) --> (A & B --> C)', 'A & B --> (A --> C) --> C', '(A --> B) --> A --> B',
+         # a repeated assumption (the closing line must still be the goal as stated); conjuncts that are implications (nested blocks next to later gaps)
+         'A --> B --> A --> A & B', 'A & C --> (B --> A) & (A & A)']
 STEPS = [
     {'method_name': 'cut', 'goal': 'A'},
     {'method_name': 'cut', 'goal': 'B | A'},
@@ -374,7 +376,14 @@ STEPS = [
     {'method_name': 'apply_backward_step', 'theorem': 'conjD1', 'fact': 1},
     {'method_name': 'apply_prev', 'fact': 1},
     {'method_name': 'revert_intro', 'fact': 1},
+    # facts that are textually earlier but not visible from the goal: the enclosing line of the gap, a line inside the block of the previous line
+    {'method_name': 'apply_prev', 'fact_parent': True},
+    {'method_name': 'apply_backward_step', 'theorem': 'conjI', 'fact_in': 1},
+    {'method_name': 'apply_prev', 'fact_in': 1},
+    {'method_name': 'apply_forward_step', 'theorem': 'conjD1', 'fact_abs': 0},
 ]
+SCOPE_PREFIX = [7, 6, 2, 4, 16]      # conjI, introduction, cut A --> C, cases A, forward conjD1: steps that build nested blocks / facts inside them
+SCOPE_LAST = [13, 14, 15]
 
 
 FO_GOALS = ['(?x. P x) --> (?y. Q y) --> (?x. P x) & (?y. Q y)', '(!x. P x) --> (?y. Q y) --> (?z. P z & Q z)', '(?x. P x & Q x) --> (?x. P x)',
@@ -476,7 +485,8 @@ def run_sequence(goal, seq, on_copy_at, fo=False, lastgap=()):
     ctx_vars = FO_VARS if fo else {'A': 'bool', 'B': 'bool', 'C': 'bool'}
     context.set_context('logic_base', vars=ctx_vars)
     state = server.parse_init_state(parser.parse_term(goal))
-    goal_th = state.prf.items[-1].th
+    from kernel.thm import Thm
+    goal_th = Thm(parser.parse_term(goal))          # the goal as stated, not as the initial state records it
     bad = check_state(state, goal_th, 'initial state')
     if bad:
         return bad
@@ -496,6 +506,18 @@ def run_sequence(goal, seq, on_copy_at, fo=False, lastgap=()):
             if gp[-1] - k < 0:
                 continue
             step['fact_ids'] = [str(ItemID_(gp[:-1] + (gp[-1] - k,)))]
+        if 'fact_parent' in step:
+            step.pop('fact_parent')
+            gp = tuple(gap.id.id)
+            if len(gp) < 2:
+                continue
+            step['fact_ids'] = [str(ItemID_(gp[:-1]))]
+        if 'fact_in' in step:
+            k = step.pop('fact_in')
+            gp = tuple(gap.id.id)
+            if gp[-1] - k < 0:
+                continue
+            step['fact_ids'] = [str(ItemID_(gp[:-1] + (gp[-1] - k, 1)))]
         target = state
         snap = None
         if on_copy_at == n:
@@ -536,8 +558,11 @@ def run_methods(u, out, twin):
     for l in range(1, L + 1):
         seqs = list(itertools.product(range(len(STEPS_)), repeat=l))
         if l == 3 and tier == 'quick':
-            # quick: all sequences of length <= 2, plus a seeded sample of the length-3 sequences
+            # quick: all sequences of length <= 2, plus a seeded sample of the length-3 sequences, plus (propositional goals) every
+            # sequence "two block-building steps, then a step citing a fact that is earlier in the text but out of scope"
             seqs = random.Random('c13m-%s-%s' % (gi, fo)).sample(seqs, min(len(seqs), 160))
+            if not fo:
+                seqs += [(a, b, c) for a in SCOPE_PREFIX for b in SCOPE_PREFIX for c in SCOPE_LAST if (a, b, c) not in seqs]
         for seq in seqs:
             # (copy position, steps working on the last gap): with two steps also the orders "later gap first, then the earlier one"
             variants = [(None, ()), (l - 1, ())]
